@@ -240,16 +240,19 @@ class C20(SchedProp):
             _case('c20-probe-start', _AB, [{'op': 'crash'}]),
         ]
         raws = run_retry(probes, 4)
+        # (a probe in which the real scheduler raises - start-up hiccups are retried by run_retry - is not an
+        # infrastructure failure: the flag stays down and the generated runs expose the exception as a violation)
+        broken = [raw for raw in raws if 'error' in raw]
         for raw in raws:
-            if 'error' in raw:
-                raise Infra(f'C20 probe run failed: {raw["error"][-400:]}')
-            if not raw['obs'][-1].get('crashed') and raw['id'] != 'c20-probe-start':
+            if 'error' not in raw and not raw['obs'][-1].get('crashed') and raw['id'] != 'c20-probe-start':
                 raise Infra(f'C20 probe {raw["id"]}: the kill point was not reached')
-        db = [raw['obs'][-1]['db'] or [] for raw in raws]
+        db = [[] if 'error' in raw else (raw['obs'][-1]['db'] or []) for raw in raws]
         at_remove = any(r[:2] == [1, 'b'] for r in db[0])
         at_abs = any(r[:2] == [1, 'a'] and r[3] == 'succeeded' for r in db[1])
-        at_sui = at_remove or not any(r[:2] == [1, 'b'] for r in db[2])
-        at_start = bool(raws[3]['obs'][-1]['pool'])
+        at_sui = at_remove or ('error' not in raws[2] and not any(r[:2] == [1, 'b'] for r in db[2]))
+        at_start = 'error' not in raws[3] and bool(raws[3]['obs'][-1]['pool'])
+        if broken:
+            at_remove = at_abs = at_sui = at_start = False
         self.flags = {'remove': at_remove, 'abs': at_abs, 'suicide': at_sui, 'start': at_start}
         lb = {True: 'true', False: 'false'}
         return {'CrashFlags.lean': (
